@@ -27,6 +27,7 @@ type script struct {
 	chain  []block // marked blocks, top last
 	reqSeq uint64
 	kind   string
+	dupReq bool // this script uses duplicate non-zero RequestIds (Less-incomparable pairs)
 }
 
 func (s *script) do(op string, f func() string) string { return s.out.Do(op, f) }
@@ -143,7 +144,7 @@ func (s *script) randReq(unique bool) uint64 {
 	if r.Chance(62, 100) {
 		return 0
 	}
-	if unique || r.Chance(70, 100) {
+	if unique || !s.dupReq || r.Chance(70, 100) {
 		s.reqSeq += uint64(1 + r.Intn(3))
 		return s.reqSeq
 	}
@@ -170,6 +171,11 @@ func (s *script) freshTx(unique bool) int {
 	// sometimes a second object with the hash of an existing one (other content)
 	if len(s.all) > 0 && s.r.Chance(1, 25) {
 		h = s.w.txs[s.all[s.r.Intn(len(s.all))]].Hash.Bytes()
+	}
+	// beyond 12 pending the Go sort is pdqsort proper: keep Less a total order there (unique
+	// RequestIds), so that PackForCast stays modelled; duplicates are exercised in small pools
+	if s.w.pool.TxNum() >= 11 {
+		unique = true
 	}
 	return s.newTx(h, src, s.randNonce(), s.randReq(unique), s.randGate())
 }
@@ -309,8 +315,14 @@ func (s *script) general(nops int, limit int, odd bool, malformed bool) {
 			s.setNonce(src, n)
 		}
 	}
+	s.dupReq = s.r.Chance(1, 4)
 	maxPending := 10 + s.r.Intn(25)
-	if odd {
+	if s.dupReq {
+		maxPending = 11
+	}
+	if odd || (c.p018 && !c.p023) {
+		// Less is not a strict weak order here (alias sources; hash order mixed with per-source nonce
+		// order before proposal 021; no hash tie-break before 023): stay within insertion-sort range
 		maxPending = 11
 	}
 	for i := 0; i < nops; i++ {
